@@ -1120,14 +1120,15 @@ func identityDriver(a *Args) {
 	md := hx.StartMetadata()
 	defer md.Close()
 
-	type saw struct{ user, auth []string }
+	type saw struct{ user, auth, cookie []string }
 	var mu sync.Mutex
 	seen := map[string]*saw{}
 	up := websocket.Upgrader{CheckOrigin: func(*http.Request) bool { return true }}
 	record := func(r *http.Request) {
 		id := r.URL.Query().Get("case")
 		mu.Lock()
-		seen[id] = &saw{user: append([]string{}, r.Header.Values("X-Inverting-Proxy-User-Id")...), auth: append([]string{}, r.Header.Values("Authorization")...)}
+		seen[id] = &saw{user: append([]string{}, r.Header.Values("X-Inverting-Proxy-User-Id")...), auth: append([]string{}, r.Header.Values("Authorization")...),
+			cookie: append([]string{}, r.Header.Values("Cookie")...)}
 		mu.Unlock()
 	}
 	bln := listen()
@@ -1140,6 +1141,10 @@ func identityDriver(a *Args) {
 			return
 		}
 		io.ReadAll(r.Body)
+		if r.URL.Query().Get("setck") == "1" {
+			// the backend sets a cookie of its own, scoped to /id
+			w.Header().Add("Set-Cookie", "tok=secret-"+r.URL.Query().Get("case")+"; Path=/id")
+		}
 		io.WriteString(w, "ok")
 	})}
 	go backend.Serve(bln)
@@ -1172,9 +1177,11 @@ func identityDriver(a *Args) {
 			fmu.Unlock()
 			return f.raw, f.user, 200
 		}
+		uploads := map[string]*fakes.Upload{}
 		fp.OnUpload = func(u *fakes.Upload) {
 			fmu.Lock()
 			ch := posted[u.ID]
+			uploads[u.ID] = u
 			fmu.Unlock()
 			if ch != nil {
 				close(ch)
@@ -1323,6 +1330,55 @@ func identityDriver(a *Args) {
 		runConcurrently(len(g), 16, func(i int) {
 			one(g[i], "c", rand.New(rand.NewSource(int64(hx.Seed())*1000003+int64(g[i].N))))
 		})
+		if k.sessions && k.shim {
+			// session tracking together with the websocket shim (C10 through the agent's own handler chain): a cookie
+			// the backend set earlier in the session, for the path of the websocket, travels with the handshake of
+			// a shimmed websocket opened in that session; the session cookie itself never reaches the backend
+			exchange := func(id string, raw string) *fakes.Upload {
+				ch := make(chan struct{})
+				fmu.Lock()
+				fetches[id] = fetch{[]byte(raw), "user@example.com"}
+				posted[id] = ch
+				fmu.Unlock()
+				fp.Push([]string{id})
+				select {
+				case <-ch:
+				case <-time.After(15 * time.Second):
+				}
+				fmu.Lock()
+				defer fmu.Unlock()
+				return uploads[id]
+			}
+			tag := fmt.Sprintf("ss%v%v", k.fwd, k.strip)
+			id1, id2, id3 := tag+"a", tag+"b", tag+"c"
+			u1 := exchange(id1, fmt.Sprintf("GET /id/x?case=%s&setck=1 HTTP/1.1\r\nHost: svc.example\r\n\r\n", id1))
+			sid := ""
+			if u1 != nil && u1.Resp != nil {
+				for _, ck := range u1.Resp.Cookies() {
+					if ck.Name == "vsess" {
+						sid = ck.Value
+					}
+				}
+			}
+			body := fmt.Sprintf("ws://svc.example/id/ws?case=%s", id2)
+			exchange(id2, fmt.Sprintf("POST /shimz/open HTTP/1.1\r\nHost: svc.example\r\nX-Websocket-Shim-Version: 1\r\nCookie: vsess=%s; mine=1\r\nContent-Length: %d\r\n\r\n%s", sid, len(body), body))
+			exchange(id3, fmt.Sprintf("GET /other/y?case=%s HTTP/1.1\r\nHost: svc.example\r\nCookie: vsess=%s\r\n\r\n", id3, sid))
+			has := func(id, needle string) bool {
+				mu.Lock()
+				defer mu.Unlock()
+				if seen[id] == nil {
+					return false
+				}
+				return strings.Contains(strings.Join(seen[id].cookie, "; "), needle)
+			}
+			mu.Lock()
+			reachedHS := seen[id2] != nil
+			mu.Unlock()
+			hx.Emit("SessShim", "case", tag, "sig", fmt.Sprintf("sessions+shim:fwd=%v/strip=%v", k.fwd, k.strip), "session_started", sid != "", "handshake_reached_backend", reachedHS,
+				"handshake_has_backend_cookie", has(id2, "tok=secret-"+id1), "handshake_has_client_cookie", has(id2, "mine=1"),
+				"handshake_has_session_cookie", has(id2, "vsess="), "later_request_has_session_cookie", has(id3, "vsess="), "other_path_has_scoped_cookie", has(id3, "tok="))
+			res.Case("sessions+shim:"+tag, map[string]interface{}{"session": sid != ""})
+		}
 		if ex, code := agent.Exited(); ex {
 			res.Note("agent exited with %d: %s", code, hx.Tail(agent.Output(), 1200))
 			hx.Emit("ProcExit", "proc", "agent", "code", code)
